@@ -118,7 +118,7 @@ def correspond(ctx):
             elif r < 0.75:   # declared lengths, matching and mismatching
                 cl = rng.choice([len(ct), len(ct) + 16, 16, 0])
                 ml = rng.choice([n, n + 1, 0])
-                k2 = rng.choice([key, key + b"x", key[:-1]])
+                k2 = rng.choice([key, key + b"x", key[:-1], rb(rng, 16), rb(rng, 24), rb(rng, 32), b""])
                 ct2 = enc_case(kl, cl, ml, k2, rb(rng, 16), msg)
                 dec_case(kl, cl, ml, k2, ct)
                 res.count("contracts")
@@ -190,11 +190,30 @@ def oracle(ctx, res):
                 viol("declared length mismatch accepted", str(bad), {})
             except ValueError:
                 pass
-        try:
-            ske.Encrypt(rb(rng, kl + 1), b"x")
-            viol("key length mismatch accepted", "", {})
-        except ValueError:
-            pass
+        for bl in (kl + 1, kl - 1, 0, 16, 24, 32, 64):
+            if bl == kl:
+                continue
+            for op in ("enc", "dec"):
+                try:
+                    if op == "enc":
+                        ske.Encrypt(rb(rng, bl), b"x")
+                    else:
+                        ske.Decrypt(rb(rng, bl), rb(rng, 32))
+                    viol("key length mismatch accepted", f"declared key_length={kl}, key of {bl} bytes accepted by {op}",
+                         {"declared": kl, "given": bl, "op": op})
+                except ValueError:
+                    pass
+        # fresh randomness over a long run on ONE instance: every IV (first 16 bytes) is used once
+        ivs = {}
+        key = rb(rng, kl); m = rb(rng, 5)
+        for i in range(ctx.pick(300, 3000)):
+            c = ske.Encrypt(key, m)
+            if c in ivs:
+                viol("two encryptions of the same message are equal", f"calls {ivs[c]} and {i} on one instance return the same ciphertext",
+                     {"key": key.hex(), "msg": m.hex(), "calls": [ivs[c], i]})
+                break
+            ivs[c] = i
+        res.evaluations += len(ivs)
     return res
 
 
